@@ -89,6 +89,13 @@ def powerChar (n : Nat) : Option String :=
   | 5 => some "⁵" | 6 => some "⁶" | 7 => some "⁷" | 8 => some "⁸" | 9 => some "⁹"
   | _ => none
 
+/-- `str.split('/')`, structurally recursive (reduces in the kernel) -/
+def splitChars (c : Char) : List Char → List Char → List (List Char)
+  | [], cur => [cur.reverse]
+  | x :: xs, cur => if x == c then cur.reverse :: splitChars c xs [] else splitChars c xs (x :: cur)
+
+def splitSlash (s : String) : List String := (splitChars '/' s.toList []).map String.ofList
+
 /-- `str(term)` for a unit term; `none` where the code raises IndexError
 (|exponent| > 9, or an element string with more than one '/'). -/
 def termStr (elemStr : Elem → String) (items : Items) : Option String :=
@@ -99,7 +106,7 @@ def termStr (elemStr : Elem → String) (items : Items) : Option String :=
       match powerChar it.2.natAbs with
       | none => none
       | some pc =>
-        match (elemStr it.1).splitOn "/" with
+        match splitSlash (elemStr it.1) with
         | [a] =>
           if it.2 > 0 then some (pos ++ [a ++ pc], neg) else some (pos, neg ++ [a ++ pc])
         | [a, b] =>
@@ -173,6 +180,23 @@ def RegState.makeUnit (s : RegState) (c : Nat) (symbol : String) (defn : Option 
     .ok ({ s with units := s.units ++ [info], symMap := s.symMap ++ [(symbol, uid)],
                    termMap, classes }, uid)
 
+/-- outcome of a declaration that ends in `_make_unit`: on failure the state
+*before the declaration* is what remains -/
+def liftMake (s : RegState) (r : Except DeclErr (RegState × Nat)) : RegState × Except DeclErr Nat :=
+  match r with
+  | .error e => (s, .error e)
+  | .ok (s', uid) => (s', .ok uid)
+
+/-- end of a class statement with a reference unit: `s` is the state before
+the statement, `r` the outcome of creating the reference unit -/
+def finishClass (s : RegState) (cid : Nat) (normDef : Items)
+    (r : Except DeclErr (RegState × Nat)) : RegState × Except DeclErr Nat :=
+  match r with
+  | .error e => (s, .error e)
+  | .ok (s2, uid) =>
+    let classes := s2.classes.modify cid fun ci => { ci with refUnit := some uid }
+    ({ s2 with classes, clsMap := s2.clsMap ++ [(normDef, cid)] }, .ok cid)
+
 /-- arguments of a class statement -/
 structure ClassDecl where
   name : String
@@ -245,11 +269,7 @@ def RegState.declClass (s : RegState) (d : ClassDecl) : RegState × Except DeclE
       else
         -- NB the unit is created against the state that already has the class
         -- (its `refUnit` still unset, so the new unit's own scale lookup is unaffected)
-        match s1.makeUnit cid sy refUnitDef true with
-        | .error e => (s, .error e)
-        | .ok (s2, uid) =>
-          let classes := s2.classes.modify cid fun ci => { ci with refUnit := some uid }
-          ({ s2 with classes, clsMap := s2.clsMap ++ [(normDef, cid)] }, .ok cid)
+        finishClass s cid normDef (s1.makeUnit cid sy refUnitDef true)
     | none => ({ s1 with clsMap := s1.clsMap ++ [(normDef, cid)] }, .ok cid)
 
 /-- what `define_as` of `new_unit` can be -/
@@ -281,10 +301,7 @@ def RegState.newUnit (s : RegState) (c : Nat) (symbol : Option String) (d : Unit
     | .other => .error .typeError
   match defRes with
   | .error e => (s, .error e)
-  | .ok defn =>
-    match s.makeUnit c sym defn false with
-    | .error e => (s, .error e)
-    | .ok (s', uid) => (s', .ok uid)
+  | .ok defn => liftMake s (s.makeUnit c sym defn false)
 
 /-- `cls.derive_unit_from(*units, symbol=…)` -/
 def RegState.deriveUnit (s : RegState) (c : Nat) (args : List Nat) (symbol : Option String) :
@@ -306,9 +323,6 @@ def RegState.deriveUnit (s : RegState) (c : Nat) (args : List Nat) (symbol : Opt
           | some str => .ok str | none => .error .indexError
       match symRes with
       | .error e => (s, .error e)
-      | .ok sy =>
-        match s.makeUnit c sy (some t) false with
-        | .error e => (s, .error e)
-        | .ok (s', uid) => (s', .ok uid)
+      | .ok sy => liftMake s (s.makeUnit c sy (some t) false)
 
 end QM
